@@ -585,3 +585,161 @@ theorem data_line_pos_tie (d : DataSess) (n : Nat) (hf : LinePosFits d.p n 0 d.e
       rw [this]; rfl
 
 end BS.Gen
+
+namespace BS.Gen
+open BS.Impl
+
+/-! ### `meta::write` and `meta::read` -/
+
+theorem le8_shape (ts : Nat) : ∃ a b c d e f g h, le8 ts = [a, b, c, d, e, f, g, h] := by
+  simp [le8, leN]
+
+theorem PREAMBLE_eq : PREAMBLE = Impl.marker := by decide
+
+/-- `meta::write`: the bytes written are the model's section, the value returned its size -/
+theorem write_tie (ts p : Nat) (hp : p < 2^60) :
+    write (le8 ts) p = .ok (Impl.metaWrite p ts, Impl.metaSize p) := by
+  obtain ⟨a, b, c, d, e, f, g, h, ht⟩ := le8_shape ts
+  have hp2 : p + 2 < 2^64 := by omega
+  unfold write Impl.metaWrite Impl.metaWriteLines Impl.metaSize
+  rw [ht]
+  match p with
+  | 0 => simp [Rs.slice, PREAMBLE, Impl.marker, Impl.lpm, Impl.lineSize, line_size_tie 0 (by omega), Rs.mul]; decide
+  | 1 => simp [Rs.slice, Rs.idx, PREAMBLE, Impl.marker, Impl.lpm, Impl.lineSize, line_size_tie 1 (by omega), Rs.mul]; decide
+  | 2 => simp [Rs.slice, Rs.idx, PREAMBLE, Impl.marker, Impl.lpm, Impl.lineSize, line_size_tie 2 (by omega), Rs.mul]; decide
+  | 3 => simp [Rs.idx, PREAMBLE, Impl.marker, Impl.lpm, Impl.lineSize, line_size_tie 3 (by omega), Rs.mul, zeros]; decide
+  | p + 4 =>
+    have h1 : p + 4 + 2 < 2^64 := by omega
+    have h2 : 2 * (p + 4 + 2) < 2^64 := by omega
+    simp [Rs.idx, Rs.copyFromSlice, PREAMBLE, Impl.marker, Impl.lpm, Impl.lineSize, line_size_tie (p + 4) h1, Rs.mul, zeros]
+    have h3 : 2 * (p + 4 + 2) < 18446744073709551616 := by omega
+    simp [h3, Gen.marker0, Gen.marker1, Gen.lpm4]
+
+
+/-- the eight timestamp bytes `meta::read` assembles (the model's `metaTs` is their value) -/
+def metaBytes (p : Nat) (l1 l2 : Bytes) (raws : List Bytes) : Bytes :=
+  match p with
+  | 0 => raws.flatten
+  | 1 => (l1.drop 2).take 1 ++ (l2.drop 2).take 1 ++ raws.flatten
+  | 2 => l1.drop 2 ++ l2.drop 2 ++ raws.flatten
+  | 3 => l1.drop 2 ++ l2.drop 2 ++ (raws.flatten).take 2
+  | _ => (l1.drop 2).take 4 ++ (l2.drop 2).take 4
+
+theorem metaTs_eq (p : Nat) (l1 l2 : Bytes) (raws : List Bytes) :
+    Impl.metaTs p l1 l2 raws = unN (metaBytes p l1 l2 raws) := by
+  match p with
+  | 0 => rfl
+  | 1 => rfl
+  | 2 => rfl
+  | 3 => rfl
+  | p + 4 => rfl
+
+theorem len2 {c : Bytes} (h : c.length = 2) : ∃ x y, c = [x, y] := by
+  match c, h with
+  | [x, y], _ => exact ⟨x, y, rfl⟩
+theorem len3 {c : Bytes} (h : c.length = 3) : ∃ x y z, c = [x, y, z] := by
+  match c, h with
+  | [x, y, z], _ => exact ⟨x, y, z, rfl⟩
+theorem len4 {c : Bytes} (h : c.length = 4) : ∃ x y z w, c = [x, y, z, w] := by
+  match c, h with
+  | [x, y, z, w], _ => exact ⟨x, y, z, w, rfl⟩
+theorem len5 {c : Bytes} (h : c.length = 5) : ∃ x y z w v, c = [x, y, z, w, v] := by
+  match c, h with
+  | [x, y, z, w, v], _ => exact ⟨x, y, z, w, v, rfl⟩
+
+theorem read_tie_p0 (chunks : List Bytes) (l1 l2 : Bytes) (h1 : l1.length = 2)
+    (hc : ∀ c ∈ chunks, c.length = 2) :
+    read chunks l1 l2 = .ok (if chunks.length < Impl.rawCount 0 then .outOfLines chunks.length
+      else .gotMeta (metaBytes 0 l1 l2 (chunks.take (Impl.rawCount 0)))) := by
+  unfold read
+  simp only [h1, sub_ok (Nat.le_refl 2), bind_ok, Nat.sub_self]
+  match chunks, hc with
+  | [], _ => simp [Impl.rawCount]
+  | [c1], hc =>
+    obtain ⟨x1, y1, rfl⟩ := len2 (hc c1 (by simp))
+    simp [Impl.rawCount, Rs.copyFromSlice]
+  | [c1, c2], hc =>
+    obtain ⟨x1, y1, rfl⟩ := len2 (hc c1 (by simp))
+    obtain ⟨x2, y2, rfl⟩ := len2 (hc c2 (by simp))
+    simp [Impl.rawCount, Rs.copyFromSlice]
+  | [c1, c2, c3], hc =>
+    obtain ⟨x1, y1, rfl⟩ := len2 (hc c1 (by simp))
+    obtain ⟨x2, y2, rfl⟩ := len2 (hc c2 (by simp))
+    obtain ⟨x3, y3, rfl⟩ := len2 (hc c3 (by simp))
+    simp [Impl.rawCount, Rs.copyFromSlice]
+  | c1 :: c2 :: c3 :: c4 :: rest, hc =>
+    obtain ⟨x1, y1, rfl⟩ := len2 (hc c1 (by simp))
+    obtain ⟨x2, y2, rfl⟩ := len2 (hc c2 (by simp))
+    obtain ⟨x3, y3, rfl⟩ := len2 (hc c3 (by simp))
+    obtain ⟨x4, y4, rfl⟩ := len2 (hc c4 (by simp))
+    simp [Impl.rawCount, Rs.copyFromSlice, metaBytes]
+
+theorem read_tie_p1 (chunks : List Bytes) (l1 l2 : Bytes) (h1 : l1.length = 3) (h2 : l2.length = 3)
+    (hc : ∀ c ∈ chunks, c.length = 3) :
+    read chunks l1 l2 = .ok (if chunks.length < Impl.rawCount 1 then .outOfLines chunks.length
+      else .gotMeta (metaBytes 1 l1 l2 (chunks.take (Impl.rawCount 1)))) := by
+  obtain ⟨a1, b1, c1, rfl⟩ := len3 h1
+  obtain ⟨a2, b2, c2, rfl⟩ := len3 h2
+  unfold read
+  match chunks, hc with
+  | [], _ => simp [Impl.rawCount, Rs.sub, Rs.idx, Rs.setIdx]
+  | [r1], hc =>
+    obtain ⟨x1, y1, z1, rfl⟩ := len3 (hc r1 (by simp))
+    simp [Impl.rawCount, Rs.sub, Rs.idx, Rs.setIdx, Rs.copyFromSlice]
+  | r1 :: r2 :: rest, hc =>
+    obtain ⟨x1, y1, z1, rfl⟩ := len3 (hc r1 (by simp))
+    obtain ⟨x2, y2, z2, rfl⟩ := len3 (hc r2 (by simp))
+    simp [Impl.rawCount, Rs.sub, Rs.idx, Rs.setIdx, Rs.copyFromSlice, metaBytes]
+
+theorem read_tie_p2 (chunks : List Bytes) (l1 l2 : Bytes) (h1 : l1.length = 4) (h2 : l2.length = 4)
+    (hc : ∀ c ∈ chunks, c.length = 4) :
+    read chunks l1 l2 = .ok (if chunks.length < Impl.rawCount 2 then .outOfLines chunks.length
+      else .gotMeta (metaBytes 2 l1 l2 (chunks.take (Impl.rawCount 2)))) := by
+  obtain ⟨a1, b1, c1, d1, rfl⟩ := len4 h1
+  obtain ⟨a2, b2, c2, d2, rfl⟩ := len4 h2
+  unfold read
+  match chunks, hc with
+  | [], _ => simp [Impl.rawCount, Rs.sub, Rs.sliceFrom, Rs.copyFromSlice]
+  | r1 :: rest, hc =>
+    obtain ⟨x1, y1, z1, w1, rfl⟩ := len4 (hc r1 (by simp))
+    simp [Impl.rawCount, Rs.sub, Rs.sliceFrom, Rs.copyFromSlice, metaBytes]
+
+theorem read_tie_p3 (chunks : List Bytes) (l1 l2 : Bytes) (h1 : l1.length = 5) (h2 : l2.length = 5)
+    (hc : ∀ c ∈ chunks, c.length = 5) :
+    read chunks l1 l2 = .ok (if chunks.length < Impl.rawCount 3 then .outOfLines chunks.length
+      else .gotMeta (metaBytes 3 l1 l2 (chunks.take (Impl.rawCount 3)))) := by
+  obtain ⟨a1, b1, c1, d1, e1, rfl⟩ := len5 h1
+  obtain ⟨a2, b2, c2, d2, e2, rfl⟩ := len5 h2
+  unfold read
+  match chunks, hc with
+  | [], _ => simp [Impl.rawCount, Rs.sub, Rs.sliceFrom, Rs.copyFromSlice]
+  | r1 :: rest, hc =>
+    obtain ⟨x1, y1, z1, w1, v1, rfl⟩ := len5 (hc r1 (by simp))
+    simp [Impl.rawCount, Rs.sub, Rs.sliceFrom, Rs.slice, Rs.copyFromSlice, metaBytes]
+
+theorem read_tie_ge4 (p : Nat) (chunks : List Bytes) (l1 l2 : Bytes) (h1 : l1.length = p + 4 + 2) (h2 : l2.length = p + 4 + 2) :
+    read chunks l1 l2 = .ok (if chunks.length < Impl.rawCount (p + 4) then .outOfLines chunks.length
+      else .gotMeta (metaBytes (p + 4) l1 l2 (chunks.take (Impl.rawCount (p + 4))))) := by
+  unfold read
+  have e1 : l1.length - 2 = p + 4 := by omega
+  simp only [Rs.sub, show 2 ≤ l1.length by omega, if_true, bind_ok, e1]
+  have s1 : Rs.slice l1 2 6 = .ok ((l1.drop 2).take 4) := by simp [Rs.slice]; omega
+  have s2 : Rs.slice l2 2 6 = .ok ((l2.drop 2).take 4) := by simp [Rs.slice]; omega
+  have n1 : ((l1.drop 2).take 4).length = 4 := by simp; omega
+  have n2 : ((l2.drop 2).take 4).length = 4 := by simp; omega
+  simp [Impl.rawCount, s1, s2, Rs.copyFromSlice, n1, n2, metaBytes]
+
+/-- `meta::read`: out of lines exactly when fewer than `rawCount` lines follow the two marker
+lines (reporting how many there were), else the timestamp bytes the model decodes -/
+theorem read_tie (p : Nat) (chunks : List Bytes) (l1 l2 : Bytes) (h1 : l1.length = p + 2) (h2 : l2.length = p + 2)
+    (hc : ∀ c ∈ chunks, c.length = p + 2) :
+    read chunks l1 l2 = .ok (if chunks.length < Impl.rawCount p then .outOfLines chunks.length
+      else .gotMeta (metaBytes p l1 l2 (chunks.take (Impl.rawCount p)))) := by
+  match p with
+  | 0 => exact read_tie_p0 chunks l1 l2 h1 hc
+  | 1 => exact read_tie_p1 chunks l1 l2 h1 h2 hc
+  | 2 => exact read_tie_p2 chunks l1 l2 h1 h2 hc
+  | 3 => exact read_tie_p3 chunks l1 l2 h1 h2 hc
+  | p + 4 => exact read_tie_ge4 p chunks l1 l2 h1 h2
+
+end BS.Gen
